@@ -476,7 +476,7 @@ Section Unfold.
                                     match compile_file se f iname (ms_g st2) with
                                     | Ok (t, g') => exec_template se globals f (mkM (ms_frames st2) (ms_nodes st2) g') t ictx
                                     | Err 4 =>
-                                        if ifexists
+                                        if ifexists && negb (served (se_loaders se) iname)
                                         then xok [] (mkM (ms_frames st2) (ms_nodes st2) (log_misses (se_loaders se) iname (ms_g st2)))
                                         else ([], Err 4)
                                     | other => xfail [] other
